@@ -59,6 +59,7 @@ PARAMS = {
     # its own value (neutral: value:), an explicit setting must win over it like over any other default
     "neutral_value": ("float", [150000.0, 98765.5, 2415408.5]),
 }
+OPTS_NAME = "Lab-Opts.yml"  # (a profile file of the user's, capitals in its name)
 ROUTES = ["profile_api", "genotype_api", "cli", "options", "options_explicit", "roundtrip", "dump",
           "profile_api", "genotype_api", "cli", "options", "options_explicit", "roundtrip", "dump", "profile_cli",
           "exome"]
@@ -501,7 +502,7 @@ def run_segment(seg):
             out["options_text"] = doc.get("options", {}) if isinstance(doc, dict) else {}
             out["wrote_profile"] = isinstance(doc, dict) and "neutral" in doc
         elif route in ("options", "options_explicit", "vcf_options"):
-            _options_yaml(os.path.join(wd, man["profile_yml"]), os.path.join(rd, "opts.yml"), seg["options"],
+            _options_yaml(os.path.join(wd, man["profile_yml"]), os.path.join(rd, OPTS_NAME), seg["options"],
                           unknown_first=(seg.get("extra_pos") == "first"), empty=seg.get("empty_options"))
         elif route == "dump":
             rec = O.run_main(["genotype", bam, "--gene", db, "--profile", refbam, "-n", man["neutral"],
@@ -536,7 +537,7 @@ def run_segment(seg):
 
     if seg.get("prior") and route in ("roundtrip", "options", "options_explicit"):
         # the file at this path held other values a moment ago and this process loaded it then
-        path = os.path.join(rd, "w", "written.yml") if route == "roundtrip" else os.path.join(rd, "opts.yml")
+        path = os.path.join(rd, "w", "written.yml") if route == "roundtrip" else os.path.join(rd, OPTS_NAME)
         if os.path.exists(path):
             keep = open(path).read()
             d = yaml.safe_load(keep) or {}
@@ -565,7 +566,7 @@ def run_segment(seg):
             from aldy.common import script_path
 
             rec = O.run_genotype("slco1b1", script_path("aldy.tests.resources/NA07000_SLCO1B1.vcf.gz"),
-                                 os.path.join(rd, "opts.yml"), None, params=params)
+                                 os.path.join(rd, OPTS_NAME), None, params=params)
             rec.pop("_raw", None)
             if rec["exc"] and not SIM.stage_calls:
                 if rec["exc"].get("aldy"):
@@ -574,7 +575,7 @@ def run_segment(seg):
                     res["crash"] = rec["exc"]
             observe_stage()
         elif route in ("options", "options_explicit"):
-            rec = O.run_genotype(db, bam, os.path.join(rd, "opts.yml"), None, params=params,
+            rec = O.run_genotype(db, bam, os.path.join(rd, OPTS_NAME), None, params=params,
                                  cn_solution=["1", "1"] if seg.get("with_cn") else None)
             rec.pop("_raw", None)
             if rec["exc"] and not SIM.stage_calls:
